@@ -106,8 +106,11 @@ func (cs c16Case) line() string {
 	if m == "" {
 		m = "-"
 	}
-	return fmt.Sprintf("c16.list 111111 %d %d %s/%s %s", cs.Batch, cs.N, e, sz, m)
+	return fmt.Sprintf("c16.list %s %d %d %s/%s %s", c16Cfg, cs.Batch, cs.N, e, sz, m)
 }
+
+// c16Cfg / c16OSCfg are replaced at the start of checkC16 by the tokens regenerated from the source (gCurCfg).
+var c16Cfg, c16OSCfg = "111111", "11111 128"
 
 func c16RunRS(cs c16Case) (idx []int, names []string, rounds int64, errClass string, err error) {
 	old := sftp.MaxFilelist
@@ -161,6 +164,8 @@ func c16RunRS(cs c16Case) (idx []int, names []string, rounds int64, errClass str
 
 func checkC16(c *lib.Ctx) {
 	r := c.R
+	c16Cfg = gCurCfg(c, "c16", c16Cfg)
+	c16OSCfg = gCurCfg(c, "c16os", c16OSCfg)
 	r.Rule = "request server: every directory size 0..2*batch+2 x batch 1..5 x scripted legal ListAt behaviours (EOF with the last entries or on the following call; short-batch cut patterns) x dot/dotdot masks, end to end through Client.ReadDir with MaxFilelist = batch; os-backed server: real directories around the Readdir(128) batch boundary; non-trivial = listing that spans more than one batch or contains a dot entry; distinct by (server, batch, n, behaviour, mask)"
 	var cases []c16Case
 	if c.Replay != "" {
@@ -364,7 +369,7 @@ func checkC16(c *lib.Ctx) {
 			if len(is) > 0 {
 				s = strings.Join(is, ",")
 			}
-			olines = append(olines, fmt.Sprintf("c16.oslist 11111 128 %d -", n))
+			olines = append(olines, fmt.Sprintf("c16.oslist %s %d -", c16OSCfg, n))
 			rounds := n/128 + 1
 			if n%128 != 0 || n == 0 {
 				rounds = n/128 + 1
